@@ -9,7 +9,7 @@
 //        outside the model: oracle-only families)
 //   ops:  T <dt> | A <pattern of 0/1> | S <idev> <pri> <pgn> <src> <dst> <tp 0/1> <datahex> | F | C <idev>
 //         P (ParseMessages) | R <idhex> <len> <8 bytes hex>  (frame into the driver's receive queue)
-//         H <interval> <offset> [idev] (SetHeartbeatIntervalAndOffset) | Z <which> <v> (sizing / address setters after initialisation)
+//         H <interval> [<offset> [idev]] (SetHeartbeatIntervalAndOffset; omitted arguments = the header's defaults) | Z <which> <v> (sizing / address setters after initialisation)
 //   public calls of the application (coq/Model/ApiDefs.v):
 //         Q ac <dst> <idev> <delay> (SendIsoAddressClaim) | Q pi <idev> (SendProductInformation) | Q ci <idev> (SendConfigurationInformation)
 //         Q tx|rx <dst> <idev> <tp> (SendTxPGNList / SendRxPGNList) | Q hb <force> (SendHeartbeat(bool)) | Q hd <idev> (SendHeartbeat(int))
@@ -240,6 +240,9 @@ static void run_case(const std::string &line) {
       for (size_t i = 0; i < st.size(); i++) free(st[i]);
     }
     bool hb = kv.count("hb") && kv["hb"] == "1";
+    // short=1: every public call is made with the shortest argument list whose omitted arguments equal the defaults the header documents
+    // (written out here), so that the default arguments of the header are part of what is compared with the model
+    bool shortc = kv.count("short") && kv["short"] == "1";
     n->SetMsgHandler(handle_msg);
     n->SetOnOpen(on_open);
     n->SetForwardStream(0);
@@ -264,7 +267,8 @@ static void run_case(const std::string &line) {
         m.SetIsTPMessage(t[6] == "1");
         memset(m.Data, 0xEE, sizeof(m.Data));           // stale payload bytes beyond DataLen must never reach the bus
         std::vector<uint8_t> d = unhex(t[7]); m.DataLen = (int)d.size(); if (!d.empty()) memcpy(m.Data, d.data(), d.size());
-        bool r = n->SendMsg(m, atoi(t[1].c_str()));
+        int sd = atoi(t[1].c_str());
+        bool r = (shortc && sd == 0) ? n->SendMsg(m) : n->SendMsg(m, sd);
         out += r ? "res:1 " : "res:0 ";
       }
       else if (t[0] == "F") n->SendFrames();
@@ -287,18 +291,40 @@ static void run_case(const std::string &line) {
       // public calls an application may make at run time (Model/ApiDefs.v); the sending ones are used on open nodes only
       else if (t[0] == "Q" && t.size() >= 3) {
         const std::string &k = t[1];
-        if (k == "ac" && t.size() >= 5) n->SendIsoAddressClaim((unsigned char)tounum(t[2]), atoi(t[3].c_str()), (unsigned long)tounum(t[4]));
-        else if (k == "pi") n->SendProductInformation(atoi(t[2].c_str()));
-        else if (k == "ci") n->SendConfigurationInformation(atoi(t[2].c_str()));
-        else if (k == "tx" && t.size() >= 5) n->SendTxPGNList((unsigned char)tounum(t[2]), atoi(t[3].c_str()), t[4] == "1");
-        else if (k == "rx" && t.size() >= 5) n->SendRxPGNList((unsigned char)tounum(t[2]), atoi(t[3].c_str()), t[4] == "1");
-        else if (k == "hb") n->SendHeartbeat((bool)(t[2] == "1"));
+        if (k == "ac" && t.size() >= 5) {
+          unsigned char d = (unsigned char)tounum(t[2]); int i = atoi(t[3].c_str()); unsigned long fn = (unsigned long)tounum(t[4]);
+          if (shortc && fn == 0 && i == 0 && d == 0xff) n->SendIsoAddressClaim();
+          else if (shortc && fn == 0 && i == 0) n->SendIsoAddressClaim(d);
+          else if (shortc && fn == 0) n->SendIsoAddressClaim(d, i);
+          else n->SendIsoAddressClaim(d, i, fn);
+        }
+        else if (k == "pi") { int i = atoi(t[2].c_str()); if (shortc && i == 0) n->SendProductInformation(); else n->SendProductInformation(i); }
+        else if (k == "ci") { int i = atoi(t[2].c_str()); if (shortc && i == 0) n->SendConfigurationInformation(); else n->SendConfigurationInformation(i); }
+        else if (k == "tx" && t.size() >= 5) { if (shortc && t[4] != "1") n->SendTxPGNList((unsigned char)tounum(t[2]), atoi(t[3].c_str())); else n->SendTxPGNList((unsigned char)tounum(t[2]), atoi(t[3].c_str()), t[4] == "1"); }
+        else if (k == "rx" && t.size() >= 5) { if (shortc && t[4] != "1") n->SendRxPGNList((unsigned char)tounum(t[2]), atoi(t[3].c_str())); else n->SendRxPGNList((unsigned char)tounum(t[2]), atoi(t[3].c_str()), t[4] == "1"); }
+        else if (k == "hb") { if (shortc && t[2] != "1") n->SendHeartbeat(); else n->SendHeartbeat((bool)(t[2] == "1")); }
         else if (k == "hd") n->SendHeartbeat((int)atoi(t[2].c_str()));
         else if (k == "hi" && t.size() >= 4) n->SetHeartbeatInterval((unsigned long)tounum(t[2]), true, atoi(t[3].c_str()));
         else out += "badop ";
       }
-      else if (t[0] == "I" && t.size() >= 5) n->SetDeviceInformationInstances((uint8_t)tounum(t[2]), (uint8_t)tounum(t[3]), (uint8_t)tounum(t[4]), atoi(t[1].c_str()));
-      else if (t[0] == "D" && t.size() >= 7) n->SetDeviceInformation((unsigned long)tounum(t[2]), (unsigned char)tounum(t[3]), (unsigned char)tounum(t[4]), (uint16_t)tounum(t[5]), (unsigned char)tounum(t[6]), atoi(t[1].c_str()));
+      else if (t[0] == "I" && t.size() >= 5) {
+        uint8_t lo = (uint8_t)tounum(t[2]), up = (uint8_t)tounum(t[3]), si = (uint8_t)tounum(t[4]); int i = atoi(t[1].c_str());
+        if (shortc && i == 0 && si == 0xff && up == 0xff && lo == 0xff) n->SetDeviceInformationInstances();
+        else if (shortc && i == 0 && si == 0xff && up == 0xff) n->SetDeviceInformationInstances(lo);
+        else if (shortc && i == 0 && si == 0xff) n->SetDeviceInformationInstances(lo, up);
+        else if (shortc && i == 0) n->SetDeviceInformationInstances(lo, up, si);
+        else n->SetDeviceInformationInstances(lo, up, si, i);
+      }
+      else if (t[0] == "D" && t.size() >= 7) {
+        unsigned long u = (unsigned long)tounum(t[2]); unsigned char f = (unsigned char)tounum(t[3]), c = (unsigned char)tounum(t[4]), g = (unsigned char)tounum(t[6]);
+        uint16_t mf = (uint16_t)tounum(t[5]); int i = atoi(t[1].c_str());
+        if (shortc && i == 0 && g == 4 && mf == 0xffff && c == 0xff && f == 0xff) n->SetDeviceInformation(u);
+        else if (shortc && i == 0 && g == 4 && mf == 0xffff && c == 0xff) n->SetDeviceInformation(u, f);
+        else if (shortc && i == 0 && g == 4 && mf == 0xffff) n->SetDeviceInformation(u, f, c);
+        else if (shortc && i == 0 && g == 4) n->SetDeviceInformation(u, f, c, mf);
+        else if (shortc && i == 0) n->SetDeviceInformation(u, f, c, mf, g);
+        else n->SetDeviceInformation(u, f, c, mf, g, i);
+      }
       else if (t[0] == "X") n->Restart();
       else if (t[0] == "L" && t.size() >= 3) {          // PGN list setters at run time; the list lives as long as the node
         int which = atoi(t[1].c_str()); const unsigned long *l = plist(t[2] == "-" ? std::string("") : t[2])->data();
@@ -311,7 +337,8 @@ static void run_case(const std::string &line) {
       }
       else if (t[0] == "O" && t.size() >= 3) {          // handling / forwarding options at run time
         int which = atoi(t[1].c_str()); bool b = t[2] == "1";
-        if (which == 0) n->SetHandleOnlyKnownMessages(b); else if (which == 1) n->SetForwardOnlyKnownMessages(b);
+        if (shortc && b) { if (which == 0) n->SetHandleOnlyKnownMessages(); else if (which == 1) n->SetForwardOnlyKnownMessages(); else if (which == 2) n->SetForwardSystemMessages(); else if (which == 3) n->SetForwardOwnMessages(); else n->EnableForward(); }
+        else if (which == 0) n->SetHandleOnlyKnownMessages(b); else if (which == 1) n->SetForwardOnlyKnownMessages(b);
         else if (which == 2) n->SetForwardSystemMessages(b); else if (which == 3) n->SetForwardOwnMessages(b); else n->EnableForward(b);
       }
       else if (t[0] == "K" && t.size() >= 6) {          // SetProductInformation at run time: K s|p <hex model> <hex sw> <hex version> <hex serial>
@@ -324,8 +351,13 @@ static void run_case(const std::string &line) {
           for (int k = 0; k < 4; k++) free(b[k]);
         }
       }
-      else if (t[0] == "M" && t.size() >= 3) n->SetMode((tNMEA2000::tN2kMode)atoi(t[1].c_str()), (uint8_t)tounum(t[2]));
-      else if (t[0] == "H" && t.size() >= 3) n->SetHeartbeatIntervalAndOffset((uint32_t)tounum(t[1]), (uint32_t)tounum(t[2]), t.size() > 3 ? atoi(t[3].c_str()) : -1);
+      else if (t[0] == "M" && t.size() >= 3) { if (shortc && tounum(t[2]) == 15) n->SetMode((tNMEA2000::tN2kMode)atoi(t[1].c_str())); else n->SetMode((tNMEA2000::tN2kMode)atoi(t[1].c_str()), (uint8_t)tounum(t[2])); }
+      else if (t[0] == "H" && t.size() == 2) n->SetHeartbeatIntervalAndOffset((uint32_t)tounum(t[1]));                          // the header's default offset and device
+      else if (t[0] == "H" && t.size() == 3) n->SetHeartbeatIntervalAndOffset((uint32_t)tounum(t[1]), (uint32_t)tounum(t[2]));  // the header's default device
+      else if (t[0] == "H" && t.size() >= 4) {
+        uint32_t iv = (uint32_t)tounum(t[1]), off = (uint32_t)tounum(t[2]); int i = atoi(t[3].c_str());
+        if (shortc && i == -1 && off == 0) n->SetHeartbeatIntervalAndOffset(iv); else if (shortc && i == -1) n->SetHeartbeatIntervalAndOffset(iv, off); else n->SetHeartbeatIntervalAndOffset(iv, off, i);
+      }
       else if (t[0] == "R" && t.size() >= 4) {
         RxFrame f; f.id = strtoul(t[1].c_str(), 0, 16); f.len = (unsigned char)atoi(t[2].c_str());
         std::vector<uint8_t> d = unhex(t[3]); memset(f.buf, 0, 8); for (size_t i = 0; i < d.size() && i < 8; i++) f.buf[i] = d[i];
